@@ -361,7 +361,9 @@ class Waiting(State):
                 self._waiting_future.set_result(self._resumed_with[0])
             raise
 
-        if result == NULL:
+        if isinstance(result, type(NULL)):
+            # (not ``result == NULL``: that would ask the ``==`` of the value the process was resumed with, which can answer
+            # anything - a numpy array, ``unittest.mock.ANY``)
             next_state = self.create_state(ProcessState.RUNNING, self.done_callback)
         else:
             next_state = self.create_state(ProcessState.RUNNING, self.done_callback, result)
